@@ -129,13 +129,14 @@ def prof_layout(g, n):
         points = sorted({0, size, max(size - 1, 0), size + 1, size // 2} | {g.r.randint(0, size + 1) for _ in range(4)})
         fields, names = [], g.r.sample(FIELD_NAMES, nf)
         mode = g.r.random()
-        if mode >= 0.88:
-            # otherwise valid fields plus ONE field at the size boundary, in every form a front end accepts
+        if mode >= 0.8:
+            # otherwise valid fields plus exactly ONE questionable field: at the size boundary, reversed, empty,
+            # too wide for a bool, a bool with a conversion - in every form a front end accepts
             fields = [f for f in g.partition_fields(max(size - 2, 0), max_fields=3, conv_p=0.0) if f["base"] != "bool" or "end" in f]
-            b = g.pick([size - 1, size, size, size, size + 1])
-            shape = g.pick(["bare_bool", "bare_bool", "bool_range", "uint_1", "uint_cross", "empty"])
-            if b < 0:
-                b = 0
+            b = max(g.pick([size - 1, size, size, size, size + 1]), 0)
+            inside = g.r.randint(0, max(size - 1, 0))
+            shape = g.pick(["bare_bool", "bare_bool", "bool_range", "uint_1", "uint_cross", "empty", "rev_bool", "rev_bool",
+                            "rev_uint", "bool_wide", "bool_conv", "nested_later", "nested_earlier"])
             nm = "edge"
             if shape == "bare_bool":
                 fields.append({"name": nm, "base": "bool", "start": b})
@@ -145,8 +146,25 @@ def prof_layout(g, n):
                 fields.append({"name": nm, "base": g.pick(["uint", "int"]), "start": b, "end": b + 1})
             elif shape == "uint_cross":
                 fields.append({"name": nm, "base": "uint", "start": max(b - 1, 0), "end": b + 1})
-            else:
+            elif shape == "empty":
                 fields.append({"name": nm, "base": g.pick(["uint", "bool"]), "start": b, "end": b})
+            elif shape in ("rev_bool", "rev_uint"):
+                lo = g.r.randint(0, inside)
+                fields = [{"name": nm, "base": "bool" if shape == "rev_bool" else "uint", "start": inside, "end": g.pick([lo, max(inside - 1, 0), 0])}]
+            elif shape == "bool_wide":
+                fields = [{"name": nm, "base": "bool", "start": 0, "end": min(size, g.pick([2, 3, 8]))}]
+            elif shape == "bool_conv":
+                fields = [{"name": nm, "base": "bool", "start": inside, "conversion": {"type": "conv::Ty", "try": g.chance(0.5)}}]
+            elif size >= 4:
+                # one field strictly inside another, in either declaration order
+                a0 = g.r.randint(0, size - 4); a1 = g.r.randint(a0 + 3, size)
+                b0 = g.r.randint(a0 + 1, a1 - 2); b1 = g.r.randint(b0 + 1, a1 - 1)
+                outer = {"name": "wide", "base": "uint", "start": a0, "end": a1}
+                inner = {"name": "part", "base": "uint", "start": b0, "end": b1}
+                fields = [outer, inner] if shape == "nested_earlier" else [inner, outer]
+                if g.chance(0.3):
+                    fields.insert(1, {"name": "mid", "base": "uint", "start": a1, "end": min(size, a1 + 1)} if a1 < size else {"name": "mid", "base": "bool", "start": a0 - 1} if a0 > 0 else {"name": "mid", "base": "uint", "start": a1 - 0, "end": a1})
+                    fields = [f for f in fields if f["name"] != "mid" or f.get("end", f["start"] + 1) > f["start"]]
         elif 0.35 <= mode < 0.7 and size >= 2:
             # individually valid fields whose ranges touch, nest or cross
             for k in range(nf):
@@ -492,7 +510,10 @@ def prof_cfg(g, n):
     out = []
     for i in range(n):
         g.reset_names()
-        atoms = ["ca", "cb", "cc", "cd", 'feature="x"', 'feature="y"']
+        # plain atoms, compound predicates that *contain* an atom without implying it, and names that are
+        # substrings of one another: own and enclosing predicates must be conjoined whatever their text
+        atoms = ["ca", "cb", "cc", "cd", 'feature="x"', 'feature="y"', "any(ca, cb)", "not(cc)", "ca1", 'feature="xy"',
+                 "any(cd, not(ca))"]
 
         def cfg():
             return g.pick(atoms) if g.chance(0.45) else None
@@ -609,7 +630,7 @@ def prof_addrtype(g, n):
         edge = g.pick([lo, hi, hi, hi])
         delta = g.pick([-2, -1, 0, 0, 1, 2])
         target = edge + delta          # the extreme address we aim for
-        shape = g.pick(["flat", "repeat", "block", "block_repeat", "neg_stride", "nested", "blockref"])
+        shape = g.pick(["flat", "repeat", "block", "block_repeat", "neg_stride", "nested", "blockref", "ref", "ref"])
         name = g.fresh(["Reg", "Obj", "Thing"])
         def leaf(addr, rep=None):
             if kind == "register":
@@ -645,13 +666,35 @@ def prof_addrtype(g, n):
             o1, o2 = g.r.randint(0, 20), g.r.randint(0, 20)
             objs = [{"kind": "block", "name": "Outer", "address_offset": str(o1), "objects": [
                 {"kind": "block", "name": "Inner", "address_offset": str(o2), "objects": [leaf(target - o1 - o2)]}]}]
+        elif shape == "ref" and kind != "buffer":
+            # the extreme is reached only through a ref's overriding address (and repeat)
+            ov = {"kind": kind, "address": str(target)}
+            if g.chance(0.4):
+                cnt, st = g.r.randint(2, 3), g.r.randint(1, 4)
+                ov = {"kind": kind, "address": str(target - (cnt - 1) * st if edge != lo else target + (cnt - 1) * st),
+                      "repeat": {"count": str(cnt), "stride": str(st if edge != lo else -st)}}
+            objs = [leaf(g.r.randint(0, 5) if lo == 0 else 0), {"kind": "ref", "name": "Far", "target": name, "override": ov}]
         else:  # blockref
             off = g.r.randint(1, 30)
             objs = [{"kind": "block", "name": "Blk", "objects": [leaf(g.r.randint(0, 5) if lo == 0 else 0)]},
                     {"kind": "ref", "name": "BlkCopy", "target": "Blk", "override": {"kind": "block", "address_offset": str(target - off if target - off >= lo else off)}}]
         cfg = {"register_address_type": t, "command_address_type": t, "buffer_address_type": t}
+        tkey = {"register": "register_address_type", "command": "command_address_type", "buffer": "buffer_address_type"}
+        if g.chance(0.5):
+            # the kinds have their own address types: each object must be judged by the type of its own kind
+            others = [k for k in tkey if k != kind]
+            for k in others:
+                cfg[tkey[k]] = g.pick(INTS)
+            if g.chance(0.7):
+                k2 = g.pick(others)
+                lo2, hi2 = INT_RANGE[cfg[tkey[k2]]]
+                a2 = g.r.randint(max(lo2, -3), min(hi2, 5))
+                o2 = {"kind": k2, "name": "Near", "address": str(a2)}
+                if k2 == "register":
+                    o2.update({"size_bits": 8, "fields": []})
+                objs.append(o2)
         if g.chance(0.1):
-            del cfg[{"register": "register_address_type", "command": "command_address_type", "buffer": "buffer_address_type"}[kind]]
+            del cfg[tkey[kind]]
         out.append(case({"config": cfg, "objects": objs}, pick_syntax(g, (7, 2, 1, 1)), "addrtype"))
     return out
 
@@ -705,6 +748,41 @@ def prof_pow2(g, n):
             objs.append(leaf(g.r.randint(0, 5), nm="Zero"))
         cfg = {"register_address_type": t, "command_address_type": t, "buffer_address_type": t}
         out.append(case({"config": cfg, "objects": objs}, pick_syntax(g, (7, 2, 1, 1)), "addrtype"))
+    return out
+
+
+def prof_cmdshape(g, n):
+    """C09, generator half: commands in every shape a front end accepts — no input / output at all, a declared size
+    with and without fields on either side, the `basic` form, and refs to them."""
+    out = []
+    for i in range(n):
+        g.reset_names()
+        objs = []
+        for k in range(g.r.randint(1, 4)):
+            name = g.fresh(["Cmd", "Run", "Go", "Stop", "Probe", "Erase"])
+            o = {"kind": "command", "name": name, "address": str(k + 1)}
+            if g.chance(0.12):
+                o["basic"] = True
+            else:
+                for side in ("in", "out"):
+                    shape = g.pick(["absent", "sized_only", "fields", "fields", "zero"])
+                    if shape == "absent":
+                        continue
+                    size = 0 if shape == "zero" else g.pick([1, 5, 8, 12, 16, 24])
+                    o["size_bits_" + side] = size
+                    if shape == "fields":
+                        fs = g.partition_fields(size, max_fields=3, conv_p=0.0)
+                        o["fields_" + side] = fs or [{"name": "v", "base": "uint", "start": 0, "end": size}]
+                    elif g.chance(0.5):
+                        o["fields_" + side] = []
+                if max(o.get("size_bits_in", 0), o.get("size_bits_out", 0)) > 8:
+                    o["byte_order"] = g.pick(["LE", "BE"])
+            objs.append(o)
+        if g.chance(0.4):
+            t = g.pick(objs)
+            objs.append({"kind": "ref", "name": "Alias", "target": t["name"], "override": {"kind": "command", "address": "9"}})
+        cfg = {"command_address_type": "u8", "register_address_type": "u8"}
+        out.append(case({"config": cfg, "objects": objs}, pick_syntax(g, (3, 3, 2, 2)), "cmdshape"))
     return out
 
 
@@ -814,9 +892,17 @@ def prof_names(g, n):
             _, victim = g.pick(flat)
             alt = name(collide_with=victim["name"])
             if alt.lower().replace("_", "") != victim["name"].lower().replace("_", ""):
-                # no alternative spelling available: rename both
-                victim["name"], alt = "my_reg", "MyReg"
-            where.insert(pos, mk(g.pick(["register", "command", "buffer"]), alt))
+                # no alternative spelling available: rename both (two *different* spellings that no other object uses:
+                # the same raw key twice in one manifest table is the parser's business, not the name analysis')
+                free = [grp for grp in COLLIDING if not any(x in used_raw for x in grp)]
+                if free:
+                    grp = g.pick(free)
+                    victim["name"], alt = grp[0], grp[1]
+                    used_raw.update([grp[0], grp[1]])
+                else:
+                    alt = None
+            if alt is not None:
+                where.insert(pos, mk(g.pick(["register", "command", "buffer"]), alt))
         elif defect == "dup_field" and regs:
             r = g.pick(regs)
             r["fields"] = [{"name": "my_val", "base": "uint", "start": 0, "end": 2}, {"name": "MyVal", "base": "uint", "start": 2, "end": 4}]
@@ -871,6 +957,12 @@ def prof_names(g, n):
                     else:
                         ov["illegal"] = [g.pick(["byte_order", "bit_order", "size_bits_in", "size_bits_out", "allow_bit_overlap", "fields_in"])]
                 where.insert(pos, {"kind": "ref", "name": name(), "target": tname, "override": ov})
+                if defect in ("ref_kind", "good_ref", "ref_missing") and g.chance(0.6):
+                    # a second, correct ref to the same target somewhere else in the tree (before or after the
+                    # first in traversal order): every ref must be validated on its own
+                    ov2 = {"kind": "block", "address_offset": str(next_addr() * 16 + 800)} if kind == "block" else {"kind": kind, "address": str(next_addr() + 300)}
+                    w2 = g.pick(containers)
+                    w2.insert(g.r.randint(0, len(w2)), {"kind": "ref", "name": name(), "target": t["name"], "override": ov2})
         elif defect == "device_name":
             dev = g.pick(["dev", "my_dev", "myDev", "MY_DEV", "Dev_x"])
         cfg = {"register_address_type": "i32", "command_address_type": "i32", "buffer_address_type": "i32", "default_byte_order": "LE"}
@@ -985,6 +1077,8 @@ def cases_for(prop, tier, seed):
         for i in range(400 * k):
             cs.append(case(common_fragment_adef(g), pick_syntax(g, (3, 3, 2, 2)), "api"))
         return CORPUS.get(prop, []) + cs
+    if prop == "C09":
+        return CORPUS.get(prop, []) + prof_cmdshape(g, 240 * k)
     if prop == "C02":
         # the generated getter / setter wrappers of a field must name the same codec, orders and range
         return CORPUS.get(prop, []) + prof_layout(g, 150 * k) + [case(common_fragment_adef(g), pick_syntax(g, (3, 3, 2, 2)), "api") for _ in range(250 * k)]
